@@ -54,6 +54,22 @@ def correspondence(rep, ctx):
         cases.append((contents, unit, t, tu))
     # the two inputs of finding F6 always run, so that the finding stays observable
     cases.append(({"Fm-257": 1e30}, "num", 1e-20, "s"))
+    # the reading of the TIME (15 significant digits of the supplied number, then the exact unit factor): a relative error
+    # eps of the time shows up as lambda*t*eps in the result, so long times (40-600 half-lives) given as non-round numbers
+    # in non-second units are the sensitive inputs; and very short times in sub-second units (>= 1e-25 in their unit)
+    r_ = gen.r
+    for k in range(10 if thorough else 4):
+        g = r_.choice(gen.radio)
+        secs = float(r_.choice([40.0, 100.0, 300.0, 600.0]) * r_.uniform(0.9, 1.1) / view.rate[g])
+        t, tu = gen._in_unit(secs)
+        while tu in ("s", "sec"):
+            t, tu = gen._in_unit(secs)
+        cases.append(({view.names[g]: 10.0 ** r_.uniform(20, 30)}, "num", t, tu))
+        gen._count("time:long-nonround-nonsecond")
+    for k in range(6 if thorough else 3):
+        g = r_.choice(gen.deep)
+        cases.append(({view.names[g]: 10.0 ** r_.uniform(25, 30)}, "num", 10.0 ** r_.uniform(-25, -19), r_.choice(["ps", "ns", "us", "μs", "ms"])))
+        gen._count("time:tiny-subsecond-unit")
     reals, ocases, meta = [], [], []
     for c in cases:
         contents, unit, t, tu = c
@@ -124,6 +140,8 @@ def correspondence(rep, ctx):
                         bad += 1
                     break
         rep.notes["mismatches"] = bad
+    import synthetic
+    synthetic.decay_block(rep, ctx, "c02/synthetic-hp", kinds=("decay",), ndatasets=(6 if thorough else 2), per=3, hp=True)
     symbolic(rep, ctx, gen)
     rep.corr["input_distribution"].update(gen.dist)
 
